@@ -30,9 +30,10 @@ const prop = "C17"
 // Known-finding ids (see /verif/findings.d/c17.json). While a finding is open the generators
 // stay out of exactly its input region.
 const (
-	kfGoName = "C17-envmap-go-name-of-tagged-field"
-	kfQuoted = "C17-quoted-key-resplit"
-	kfMapSS  = "C17-mapss-missing-key-present"
+	kfGoName   = "C17-envmap-go-name-of-tagged-field"
+	kfQuoted   = "C17-quoted-key-resplit"
+	kfMapSS    = "C17-mapss-missing-key-present"
+	kfEmptyKey = "C17-empty-key-typed-map"
 )
 
 // avoider returns the callback the generators hand to invalidSteps: it answers whether the
